@@ -91,7 +91,47 @@ def _where(e):
         if "/typelib/" in code.co_filename:
             last = code.co_filename.rsplit("/typelib/", 1)[1].replace(".py", "").replace("/", ".") + ":" + getattr(code, "co_qualname", code.co_name)
         tb = tb.tb_next
+    if isinstance(e, KeyError) and e.args:
+        # a missing context entry is identified by the key that was not found (ForwardRef('Any') vs ForwardRef('object') ...)
+        k = e.args[0]
+        last += ":" + str(getattr(k, "__forward_arg__", getattr(k, "__name__", k)))[:40]
     return last
+
+
+TWINS = {}  # a TypeVar argument behaves as its documented normalisation (bound / Union of constraints)
+
+
+def _twin_leaf(x):
+    if x is T_bound:
+        return int
+    if x is T_cons:
+        return t.Union[int, str]
+    return None
+
+
+def check_twin(name, T, T_twin):
+    """`list[T_bound]` must behave exactly like `list[int]` (inspection.args normalises TypeVars)."""
+    from typelib import unmarshals
+
+    from vlib import caches
+
+    caches.clear_all()
+    try:
+        a = unmarshals.unmarshaller(T)
+        b = unmarshals.unmarshaller(T_twin)
+    except Exception:  # noqa: BLE001
+        return None  # construction failures are reported by check()
+    oa, ob = [], []
+    for u, out in ((a, oa), (b, ob)):
+        for p in PROBES + [["1", "2"], {"a": "3"}, ("4",)]:
+            try:
+                r = u(p)
+                out.append(("ok", type(r).__name__, repr(r)[:80]))
+            except Exception as e:  # noqa: BLE001
+                out.append(("exc", type(e).__name__))
+    if oa != ob:
+        return ("typevar_not_normalised", "probe_vector", _d(name, oa, ob))
+    return None
 
 
 def check(name, T):
@@ -147,10 +187,13 @@ def make_depth1(ci, unary, timeout):
         ch = Chooser((c0, c1))
         with NoTracing():
             L = leaves()
+            tw = None
             if unary:
                 n1, x = L[ch.pick(len(L))]
                 T, err = _try_make(ctor, x)
                 name = tmpl.format(n1)
+                if _twin_leaf(x) is not None:
+                    tw, _ = _try_make(ctor, _twin_leaf(x))
             else:
                 n1, x = L[ch.pick(len(L))]
                 n2, y = L[ch.pick(len(L))]
@@ -159,7 +202,10 @@ def make_depth1(ci, unary, timeout):
             if T is None:
                 return None  # not a valid annotation at runtime: outside the domain
             reached()
-            return check(name, T)
+            r = check(name, T)
+            if r is None and tw is not None:
+                r = check_twin(name, T, tw)
+            return r
 
     return Cond(f"d1/{tmpl}", [("c0", int), ("c1", int)], body, mode="E3", timeout=timeout)
 
